@@ -749,8 +749,16 @@ def run(ctx):
     # up to three times; it is reported only if it fails every time (a changed implementation differs every time).
     ctx.extra["rechecked_with_slow_timeouts"] = len(suspects)
     cleared = 0
-    if suspects and len(suspects) <= 60 and not ctx.replay:
+    suspects.sort(key=lambda c: 0 if c.get("_deferred") else 1)
+    confirmed = False
+    if suspects and not ctx.replay:
         for c in suspects:
+            if confirmed:
+                # one schedule has failed three times in a row with slow time-outs: the verdict is settled, the others are
+                # dropped unjudged rather than paid for (a changed implementation can make dozens of schedules suspect)
+                c["_cleared"] = True; c["_deferred"] = None
+                ctx.extra["suspects_not_rechecked"] = ctx.extra.get("suspects_not_rechecked", 0) + 1
+                continue
             ok = False
             for attempt in range(3):
                 rc2, res2, _ = vlib.run_jsonl("c06", [dict(strip(c), slow=5)], timeout=600)
@@ -770,6 +778,8 @@ def run(ctx):
                     break
             if ok:
                 cleared += 1; c["_cleared"] = True; c["_deferred"] = None
+            else:
+                confirmed = True
     ctx.extra["cleared_by_recheck"] = cleared
     for c in suspects:
         if c.get("_cleared"):
